@@ -33,8 +33,9 @@ def gen(seed, tier):
     import random
 
     pl = P.gen_plan(seed, PROFILE, PROP)
-    sp = pl["sprout"]
     r = random.Random(seed ^ 0xC10)
+    local_method_scenario(pl, r, seed)
+    sp = pl["sprout"]
     if "generator" in sp:
         if sp["generator"]["kind"] == "best" and r.random() < 0.5:
             sp["generator"] = {"kind": "nbc", "distance_factor": r.choice([0.5, 0.8, 1.0, 1.5]),
@@ -45,6 +46,35 @@ def gen(seed, tier):
         if r.random() < 0.5 and not any(f["kind"] == "skip_same" for f in sp["tree_filters"]):
             sp["tree_filters"].insert(r.randint(0, len(sp["tree_filters"])), {"kind": "skip_same"})
     return pl
+
+
+def local_method_scenario(pl, r, seed):
+    """~12% of the plans: 3 levels, NBCGeneratorWithLocalMethod, middle-level demes that finish quickly while their
+    leaves stay active, small level limit - candidates then also come from *inactive* parents and have to
+    compete for the slots of a full last level."""
+    if seed % 8 != 0 or len(pl.get("levels", [])) != 3:
+        return
+    minr = min(h - l for l, h in pl["box"])
+    pl["levels"][1]["lsc"] = {"kind": "metaepoch_limit", "limit": r.choice([1, 1, 2, 3])}
+    leaf = pl["levels"][2]
+    if leaf["engine"] == "local":
+        pl["levels"][2] = {"engine": "cma", "generations": r.choice([1, 2]), "sigma0": minr * 0.05,
+                           "lsc": {"kind": "dont_stop"}}
+    else:
+        leaf["lsc"] = {"kind": r.choice(["dont_stop", "dont_stop", "metaepoch_limit"]), "limit": r.randint(3, 6)}
+        if leaf["lsc"]["kind"] == "dont_stop":
+            leaf["lsc"] = {"kind": "dont_stop"}
+    dfs = []
+    if r.random() < 0.5:
+        dfs.append({"kind": "deme_limit", "limit": r.choice([1, 2])})
+    pl["sprout"] = {"generator": {"kind": "nbc_local", "distance_factor": r.choice([0.8, 1.0, 1.5]),
+                                  "truncation_factor": r.choice([0.7, 1.0])},
+                    "deme_filters": dfs, "tree_filters": [{"kind": "level_limit", "limit": r.choice([1, 2, 2, 3])}]}
+    pl["options"].pop("hibernation", None)
+    if pl["gsc"]["kind"] != "metaepoch_limit":
+        pl["gsc"] = {"kind": "metaepoch_limit", "limit": r.randint(6, 14)}
+    else:
+        pl["gsc"]["limit"] = max(pl["gsc"]["limit"], 6)
 
 
 class C10Monitor(Monitor):
